@@ -21,6 +21,12 @@ def main():
     from sgzv import core
     ctx = core.Ctx(a.pid, a.tier, seed)
     try:
+        from sgzv import anchors
+        ctx.anchor = anchors.status(a.pid)
+        if ctx.anchor['changed']:
+            ctx.boost = 4
+            ctx.notes.append('anchored source differs from the tree the model was validated against '
+                             f"({ctx.anchor['recorded_at']}): {ctx.anchor['changed']}; quick counts x{ctx.boost}")
         mod = importlib.import_module(f'sgzv.props.{a.pid.lower()}')
         audit = core.lean_audit(a.pid, thorough=(a.tier == 'thorough'))
         if a.replay:
